@@ -14,16 +14,17 @@ Theorem C18_publen_correct : forall m, wf_pubmat m -> Z.of_nat (length (pubmat_b
 Proof. exact publen_correct. Qed.
 Print Assumptions C18_publen_correct.
 
-(* the public-key packet body is exactly the first 6 + publen octets of the secret-key packet body,
-   whatever the secret part (S2K block, ciphertext or integers, checksum) holds *)
+(* pubkey() produces a twin for every key of a supported algorithm (Some: no refusal), and the public-key packet body
+   is exactly the first 6 + publen octets of the secret-key packet body, whatever the secret part (S2K block,
+   ciphertext or integers, checksum) holds *)
 Theorem C18_pub_body_is_prefix : forall k, wf_pub k ->
-  pub_packet_body k = firstn (Z.to_nat (6 + publen k)) (sec_packet_body k).
+  pub_packet_body k = Some (firstn (Z.to_nat (6 + publen k)) (sec_packet_body k)).
 Proof. exact pub_body_is_prefix. Qed.
 Print Assumptions C18_pub_body_is_prefix.
 
 (* the emitted public body is the RFC 4880 5.5.2 / RFC 6637 section 9 packet body written from the fields *)
 Theorem C18_pub_body_eq_rfc : forall k, wf_pub k ->
-  pub_packet_body k = rfc_pub_body (k_created k) (k_alg k) (k_mat k).
+  pub_packet_body k = Some (rfc_pub_body (k_created k) (k_alg k) (k_mat k)).
 Proof. exact pub_body_eq_rfc. Qed.
 Print Assumptions C18_pub_body_eq_rfc.
 
@@ -35,7 +36,7 @@ Print Assumptions C18_oid_eq_rfc.
 (* the fingerprint AS THE CODE COMPUTES IT (pieces, publen, slicing of the secret material) is
    SHA-1(0x99 || two-octet length || public packet body as exported) *)
 Theorem C18_fp_eq_rfc : forall sha1 k, wf_pub k -> 6 + publen k < 65536 ->
-  fingerprint sha1 k = rfc_fingerprint sha1 (pub_packet_body k).
+  exists b, pub_packet_body k = Some b /\ fingerprint sha1 k = rfc_fingerprint sha1 b.
 Proof. exact fp_eq_rfc. Qed.
 Print Assumptions C18_fp_eq_rfc.
 Theorem C18_fp_eq_rfc_fields : forall sha1 k, wf_pub k -> 6 + publen k < 65536 ->
@@ -65,11 +66,28 @@ Theorem C18_fp_public_only : forall sha1 k k', wf_pub k ->
 Proof. exact fp_public_only. Qed.
 Print Assumptions C18_fp_public_only.
 
-(* stability along every history of protect / unlock / lock / pubkey / copy / export+import steps *)
+(* stability along every history of protect / unlock / lock / pubkey / copy / export+import steps: no step refuses
+   (run_ops yields Some) and the fingerprint at the end is the one at the start *)
 Theorem C18_fp_invariant : forall sha1 ops k, wf_pub k -> parse_consistent k ->
-  fingerprint sha1 (fold_left apply_op ops k) = fingerprint sha1 k.
+  exists k', run_ops ops k = Some k' /\ fingerprint sha1 k' = fingerprint sha1 k.
 Proof. exact fp_invariant. Qed.
 Print Assumptions C18_fp_invariant.
+
+(* pubkey() is partial since repair 3c1c8c6: it refuses exactly the PRIVATE packets whose material is opaque
+   (algorithm ids without a material class), and what it produces otherwise is the public half *)
+Theorem C18_pubkey_refuses_iff : forall k,
+  pubkey_pkt k = None <-> is_private k = true /\ is_opaque (k_mat k) = true.
+Proof. exact pubkey_pkt_none_iff. Qed.
+Print Assumptions C18_pubkey_refuses_iff.
+(* EVERY twin that is produced has the fingerprint of its key - supported algorithms and opaque material alike, no
+   exception any more.  real_publen (nominal public length = real length) holds for both: *)
+Theorem C18_fp_twin_preserved : forall sha1 k k', real_publen k -> pubkey_pkt k = Some k' ->
+  fingerprint sha1 k' = fingerprint sha1 k.
+Proof. exact fp_twin_preserved. Qed.
+Print Assumptions C18_fp_twin_preserved.
+Theorem C18_real_publen : forall k, wf_pubmat (k_mat k) \/ is_opaque (k_mat k) = true -> real_publen k.
+Proof. intros k [H|H]; [apply real_publen_wf|apply real_publen_opaque]; exact H. Qed.
+Print Assumptions C18_real_publen.
 
 (* export + import of one packet: the parser recovers exactly the emitted public fields and leaves the secret tail *)
 Theorem C18_parse_emit : forall k, wf_pub k -> parse_consistent k ->
@@ -87,7 +105,7 @@ Print Assumptions C18_keyid_low64.
 Theorem C18_keyid_eq_rfc : forall sha1,
   (forall x, length (sha1 x) = 20%nat) -> (forall x, wf_bytes (sha1 x)) ->
   forall k, wf_pub k -> 6 + publen k < 65536 ->
-  unbe (keyid sha1 k) = rfc_keyid_value sha1 (pub_packet_body k).
+  exists b, pub_packet_body k = Some b /\ unbe (keyid sha1 k) = rfc_keyid_value sha1 b.
 Proof. exact keyid_eq_rfc. Qed.
 Print Assumptions C18_keyid_eq_rfc.
 
@@ -116,6 +134,7 @@ Print Assumptions C18_fp_opaque_public_eq_rfc.
 Theorem C18_fp_opaque_prefix_refuted :
   fingerprint_prefix (fun x => x) opaque_witness <> rfc_fingerprint (fun x => x) (key_body opaque_witness).
 Proof. exact fp_opaque_prefix_refuted. Qed.
+Print Assumptions C18_fp_opaque_prefix_refuted.
 Theorem C18_fp_opaque_prefix_characterised : forall c a d s sub,
   0 <= c < 4294967296 -> 0 <= a < 256 ->
   fp_input_prefix {| k_sub := sub; k_created := c; k_alg := a; k_mat := POpaque d; k_sec := s |}
@@ -126,19 +145,47 @@ Print Assumptions C18_fp_opaque_prefix_characterised.
 Theorem C18_fp_prefix_same_supported : forall k, wf_pubmat (k_mat k) -> fp_input_prefix k = fp_input k.
 Proof. exact fp_prefix_same_supported. Qed.
 Print Assumptions C18_fp_prefix_same_supported.
-(* STILL outside the property: a PRIVATE key of an unknown algorithm.  Its `data` is the whole stored material
-   (the public/secret boundary is unknown), all of it is hashed, PrivKeyV4.pubkey() yields a twin with EMPTY
-   material whose fingerprint covers six octets, and re-emission appends an S2K usage octet *)
+(* a PUBLIC key of such an algorithm goes through every history unchanged (copy keeps the opaque octets since repair
+   3c1c8c6, PGPKey.pubkey returns a public key itself, export + import reads the octets back): same fingerprint *)
+Theorem C18_fp_opaque_public_invariant : forall ops sub c a d, 0 <= c < 4294967296 -> a = 0 \/ a = 21 ->
+  run_ops ops (opaque_pub sub c a d) = Some (opaque_pub sub c a d).
+Proof. exact opaque_pub_invariant. Qed.
+Print Assumptions C18_fp_opaque_public_invariant.
+(* a PRIVATE key of an unknown algorithm: its `data` is the whole stored material (the public/secret boundary is
+   unknown), all of it is hashed, and PrivKeyV4.pubkey() REFUSES (NotImplementedError): there is no twin that could
+   have another fingerprint *)
 Theorem C18_fp_opaque_private_characterised : forall sub c a d sp,
   0 <= c < 4294967296 -> 0 <= a < 256 -> 6 + Z.of_nat (length d) < 65536 ->
   fp_input (opaque_sec sub c a d sp) = [153] ++ be 2 (6 + Z.of_nat (length d)) ++ [4] ++ be 4 c ++ [a] ++ d /\
-  fp_input (pubkey_pkt (opaque_sec sub c a d sp)) = [153; 0; 6; 4] ++ be 4 c ++ [a].
+  pubkey_pkt (opaque_sec sub c a d sp) = None.
 Proof. exact fp_opaque_private_characterised. Qed.
 Print Assumptions C18_fp_opaque_private_characterised.
-Theorem C18_fp_opaque_private_refuted :
-  fingerprint (fun x => x) opaque_sec_witness <> fingerprint (fun x => x) (pubkey_pkt opaque_sec_witness) /\
+(* the code BEFORE repair 3c1c8c6 (pubkey_pkt_old: total, empty twin; copy_pkt_old: opaque octets lost) is refuted:
+   the twin hashed six octets, twin and copy had another fingerprint than the key *)
+Theorem C18_fp_opaque_private_old_characterised : forall sub c a d sp,
+  0 <= c < 4294967296 -> 0 <= a < 256 ->
+  fp_input (pubkey_pkt_old (opaque_sec sub c a d sp)) = [153; 0; 6; 4] ++ be 4 c ++ [a].
+Proof. exact fp_opaque_private_old_characterised. Qed.
+Print Assumptions C18_fp_opaque_private_old_characterised.
+Theorem C18_fp_opaque_private_old_refuted :
+  fingerprint (fun x => x) opaque_sec_witness <> fingerprint (fun x => x) (pubkey_pkt_old opaque_sec_witness).
+Proof. exact fp_opaque_private_old_refuted. Qed.
+Print Assumptions C18_fp_opaque_private_old_refuted.
+Theorem C18_fp_opaque_copy_old_refuted :
+  fingerprint (fun x => x) (copy_pkt_old opaque_witness) <> fingerprint (fun x => x) opaque_witness /\
+  fingerprint (fun x => x) (copy_pkt_old opaque_sec_witness) <> fingerprint (fun x => x) opaque_sec_witness /\
+  key_body (copy_pkt_old opaque_witness) <> key_body opaque_witness.
+Proof. exact fp_opaque_copy_old_refuted. Qed.
+Print Assumptions C18_fp_opaque_copy_old_refuted.
+(* that repair changed nothing for the supported algorithms: every old step is the new one *)
+Theorem C18_steps_old_same_supported : forall k o, wf_pub k -> apply_op k o = Some (apply_op_old k o).
+Proof. exact apply_op_old_same. Qed.
+Print Assumptions C18_steps_old_same_supported.
+(* STILL outside the property: re-emission of a private packet of an unknown algorithm appends an S2K usage octet *)
+Theorem C18_opaque_private_reemit_refuted :
   key_body opaque_sec_witness <> [4] ++ be 4 1000 ++ [21] ++ [0; 9; 1; 255; 0; 0; 7; 99].
-Proof. exact fp_opaque_private_refuted. Qed.
+Proof. exact opaque_private_reemit_refuted. Qed.
+Print Assumptions C18_opaque_private_reemit_refuted.
 (* above 65535 octets the code hashes the first and last of three length octets (no RFC value exists there) *)
 Theorem C18_fp_length_prefix_above_bound : forall v, 65536 <= v < 16777216 ->
   firstn 1 (int_to_bytes v 2) ++ lastn 1 (int_to_bytes v 2) = [v / 65536; v mod 256].
